@@ -11,12 +11,12 @@ from . import propagation as P
 
 TIERS = {
     # seeds, configs per assembly, schedules per config, wall budget (s)
-    "quick": {"C01": (800, 2, 4, 35), "C02": (900, 2, 6, 35), "C04": (1100, 2, 4, 35)},
+    "quick": {"C01": (1300, 2, 4, 38), "C02": (900, 2, 6, 35), "C04": (1100, 2, 4, 35)},
     "thorough": {"C01": (12000, 4, 12, 1500), "C02": (10000, 4, 24, 1500), "C04": (10000, 4, 12, 1500)},
 }
 
 OPTS = {
-    "C01": {"categories": [("ok", 0.35), ("undefined", 0.1), ("conflict", 0.55)], "p_curved": 0.0, "jitters": [0.0, 0.05, 0.15], "p_path": 0.2},
+    "C01": {"categories": [("ok", 0.3), ("undefined", 0.1), ("conflict", 0.6)], "p_curved": 0.0, "jitters": [0.0, 0.05, 0.15], "p_path": 0.2},
     "C02": {"categories": [("ok", 0.6), ("undefined", 0.3), ("conflict", 0.1)], "p_curved": 0.0, "p_multi_source": 0.6, "p_path": 0.4, "p_infeasible": 0.08,
             "p_same_expansion": 0.5, "jitters": [0.0, 0.05, 0.15]},
     "C04": {"categories": [("ok", 0.95), ("undefined", 0.0), ("conflict", 0.05)], "p_curved": 0.12, "p_multi_source": 0.3, "p_path": 0.25,
@@ -33,7 +33,7 @@ def schedules(seed: int, cfg: int, k: int) -> List[Dict[str, Any]]:
 def build(seed: int, pid: str, ncfg: int) -> Tuple[Dict[str, Any], List[Dict[str, Any]]]:
     rs = Stream(seed, "workload", pid)
     opts = OPTS[pid]
-    if pid in ("C01", "C02") and rs.chance(opts.get("p_shapes", 0.08 if pid == "C02" else 0.05)):
+    if pid in ("C01", "C02") and rs.chance(opts.get("p_shapes", 0.1 if pid == "C02" else 0.05)):
         progs = [P.gen_shape_program(Stream(seed, "shape", pid), h64(seed, "cfg", c) % (1 << 31)) for c in range(ncfg)]
         return {"meta": progs[0]["meta"], "points": {}, "blocks": [], "chops": progs[0]["ops"]}, progs
     geo = P.gen_assembly(rs.sub("geo"), opts)
